@@ -17,7 +17,7 @@ logging.disable(logging.CRITICAL)
 warnings.simplefilter("ignore")
 
 from traits.api import (  # noqa: E402
-    Any, Dict, Either, HasTraits, Instance, Int, Interface, List, Property, PrototypedFrom, Set, Str, Supports,
+    Any, Dict, Either, HasTraits, Instance, Int, Interface, List, Property, PrototypedFrom, Range, Set, Str, Supports,
     TraitError, TraitType, Union,
     Tuple,
     cached_property, provides, push_exception_handler, register_factory)
@@ -145,6 +145,22 @@ class Part(HasTraits):
     w = VW(0)
 
 
+class BadRepr(HasTraits):       # an object whose repr fails while one of its change handlers fails (opaque op SetBR)
+    v = Int()
+    calls = Int()
+
+    def _v_changed(self, new):
+        if PLAN["kind"] == "handler" and PLAN["k"] == 14:
+            PLAN["fired"] = True
+            self.__dict__["_repr_fails"] = True
+            raise PLAN["exc"]("injected")
+
+    def __repr__(self):
+        if self.__dict__.pop("_repr_fails", False):
+            raise AttributeError("repr while broken")
+        return "<BadRepr>"
+
+
 class DInner(HasTraits):
     value = Int()
 
@@ -194,6 +210,12 @@ class A(HasTraits):
     w = Int(0)                                    # synchronised with two partner objects (opaque ops SetW / SetPW)
     deleg = Instance(ProtoD)
     pv = PrototypedFrom("deleg")                  # validated by the prototype's trait; a listener forwards its changes
+    x2 = Int(0)                                   # dependency of the cached property c2 (opaque op SetX2)
+    c2 = Property(Int, observe="x2")
+    rlo = Int(0)
+    rhi = Int(99)
+    rgd = Int()                                   # default of the dynamic Range: a user default method (deciding)
+    rg = Range(low="rlo", high="rhi", value="rgd")   # opaque op SetRG
     child = Instance(Child)                       # created by a user default method (a deciding callback)
     u = Union(V(), Str())                         # a custom validator as the first alternative of a Union (op SetU)
     q = Int(0)                                    # never assigned: first graph of the two-graph observer expression
@@ -211,6 +233,17 @@ class A(HasTraits):
     def _child_default(self):
         tick_call()
         return Child()
+
+    def _rgd_default(self):
+        tick_call()
+        return 7
+
+    @cached_property
+    def _get_c2(self):
+        if PLAN["kind"] == "handler" and PLAN["k"] == 13:
+            PLAN["fired"] = True                # raises while the new value is computed for the listeners of c2
+            raise PLAN["exc"]("injected")
+        return 5 * self.x2 + 2
 
     def _y_default(self):
         tick_call()
@@ -278,6 +311,11 @@ def make():
     a.deleg = ProtoD(pv=1)
     a.u = 1
     a.__dict__["_h10"] = dyn_cv
+    a.c2                                               # read once: the cache is filled
+    a.on_trait_change(lambda: None, "c2")              # a listener, so that a change of x2 recomputes c2 at once
+    br = BadRepr()
+    br.on_trait_change(lambda: br.trait_setq(calls=br.calls + 1), "v")    # a later handler: must still run
+    a.__dict__["_badrepr"] = br
     dp_ = DParent(child=DChild())
     dp_.child.inner                                    # created, so that the registration itself runs no failing code
     dp_.__dict__["_later"] = []
@@ -372,6 +410,15 @@ def aux(a):
     vals += [num(a.w), num(a.__dict__["_parts"][1].w)]        # not the first partner: its own validator may have refused
     vals.append(-5 if a.ade is None else num(getattr(a.ade, "v", -7)))
     vals += [num(a.pv), num(a.deleg.pv), num(a.__dict__.get("pv", -3)), a.__dict__.get("_dp_bogus", 0)]
+    try:
+        vals.append(num(a.c2))                # never a value cached before the last change of x2
+    except Exception:                         # noqa
+        vals.append(-77)
+    try:
+        vals.append(num(a.rg))                # the dynamic Range reads as its default until an assignment succeeded
+    except Exception:                         # noqa
+        vals.append(-78)
+    vals += [a.__dict__["_badrepr"].v, a.__dict__["_badrepr"].calls]
     dp_ = a.__dict__["_dparent"]
     vals += [dp_.static_calls, len(dp_.__dict__["_later"])]      # the other handlers of the auxiliary parent all ran
     h = 0
@@ -442,6 +489,20 @@ def execute(a, op, echo):
         a.ade = SRC[op[1]](v=op[2])
     elif k == "SetW":
         a.w = op[1]
+    elif k == "SetX2":
+        a.x2 = op[1]
+    elif k == "SetRG":
+        a.rg = op[1]
+    elif k == "SetBR":
+        # default exception handling for this one operation: the library's own logging of a failing handler runs
+        br = a.__dict__["_badrepr"]
+        push_exception_handler(main=True)      # handler=None: the default one
+        try:
+            br.v = op[1]
+        finally:
+            from traits.api import pop_exception_handler
+            pop_exception_handler()
+            br.__dict__.pop("_repr_fails", None)
     elif k == "SwapDeep":
         a.__dict__["_dparent"].child = DChild()
     elif k == "SetPW":
